@@ -246,3 +246,11 @@ def discr_edges(cfg, bb, index):
     if t2 is not None and t2["k"] == "unreachable":
         return []
     return [(bb, ot)]
+
+
+def closure_def_of_term(term):
+    from .prov import norm
+    t = norm(term)
+    if t[0] == "agg" and t[1].startswith("closure:"):
+        return t[1][len("closure:"):]
+    return None
